@@ -169,6 +169,7 @@ static bool parseScenario(const std::string & s)
 static bool execute(vs::Strategy * strategy, long execNo)
 {
 	// a fresh scheduler per execution: threads of an earlier stuck execution stay parked on their own (leaked) scheduler
+	armWatchdog(120);      // per execution: a long exploration must not look like a hang
 	vs::Sched * schedp = new vs::Sched();
 	vs::Sched & sched = *schedp;
 	vs::S = schedp;
